@@ -49,6 +49,8 @@ Restart *spec* (JSON)::
      "ncomp": 1 | n,       # one-file layout only: components per level
                            # (c= is written iff more than one, as Carpet does)
      "levels": {"0": [start, stop, step] | [it], "1": ...},
+     "level_comps": {"1": [1, 2, ...]},  # optional: components that hold a
+                           # level (default: every component holds it)
      "m0": false | true,   # write " m=0" in the keys
      "checkpoints": [it, ...],
      "chk_nproc": 0 | n,   # checkpoint files ".file_<k>" per iteration
@@ -158,8 +160,11 @@ def write_restart(simloc, sim, r, spec):
                     comps = [None]
                 for var in fspec["vars"]:
                     for rl, its in levels.items():
+                        only = spec.get("level_comps", {}).get(str(rl))
                         for it in its:
                             for c in comps:
+                                if only is not None and c not in only:
+                                    continue   # level not on this component
                                 h.create_dataset(
                                     dataset_key(fspec["thorn"], var, it, 0,
                                                 m, rl, c), data=arr)
